@@ -48,6 +48,7 @@ import (
 	"github.com/veesix-networks/osvbng/pkg/ifmgr"
 	"github.com/veesix-networks/osvbng/pkg/logger"
 	"github.com/veesix-networks/osvbng/pkg/models"
+	"github.com/veesix-networks/osvbng/pkg/ppp"
 	"github.com/veesix-networks/osvbng/pkg/pppoe"
 )
 
@@ -99,6 +100,58 @@ func (b *vc04Bus) take() ([]vc04Egress, []string) {
 type vc04Sub struct{}
 
 func (vc04Sub) Unsubscribe() {}
+
+// vc04Gate is the subscriber.AccessResolver of the component.  handlePADR calls IsMixedAccessSVLAN between
+// allocateSessionID and addToIndexes; when armed, the call blocks until `want` handlers are inside it (or a
+// timeout), which forces the overlap "both handlers have allocated, neither has indexed".
+type vc04Gate struct {
+	mu      sync.Mutex
+	armed   bool
+	want    int
+	inside  int
+	release chan struct{}
+}
+
+func (g *vc04Gate) IsMixedAccessSVLAN(svlan uint16) bool {
+	g.mu.Lock()
+	if !g.armed {
+		g.mu.Unlock()
+		return false
+	}
+	g.inside++
+	ch := g.release
+	g.mu.Unlock()
+	select {
+	case <-ch:
+	case <-time.After(2 * time.Second):
+	}
+	return false
+}
+
+// supervise opens the gate when all `want` handlers are inside, or when no further handler has arrived for
+// 60 ms (an implementation that serialises allocation+indexing lets only one in at a time).
+func (g *vc04Gate) supervise(done <-chan struct{}) {
+	last, stable := -1, 0
+	for {
+		select {
+		case <-done:
+			return
+		case <-time.After(3 * time.Millisecond):
+		}
+		g.mu.Lock()
+		in := g.inside
+		g.mu.Unlock()
+		if in == last {
+			stable++
+		} else {
+			last, stable = in, 0
+		}
+		if in >= g.want || stable >= 20 {
+			close(g.release)
+			return
+		}
+	}
+}
 
 type vc04Cfg struct{ lo, hi uint16 }
 
@@ -240,6 +293,7 @@ func vc04WaitUntil(sec int64) bool {
 type vc04World struct {
 	c        *Component
 	bus      *vc04Bus
+	gate     *vc04Gate
 	secret   []byte
 	now      int64 // first second of the case: forged cookies are dated relative to it
 	cur      int64 // second the clock is in now (after W ops)
@@ -281,12 +335,14 @@ func vc04Build(f []string) *vc04World {
 	ifMgr.Add(&ifmgr.Interface{SwIfIndex: 10, SupSwIfIndex: 2, Name: "TenGigE0/0.100", Type: ifmgr.IfTypeSub, OuterVlanID: 100})
 	ifMgr.Add(&ifmgr.Interface{SwIfIndex: 2, Name: "TenGigE0/0", Type: ifmgr.IfTypeHardware, MAC: []byte{0x52, 0x54, 0x00, 0x11, 0x22, 0x33}})
 	bus := &vc04Bus{}
+	gate := &vc04Gate{}
 	c := &Component{
 		Base:             component.NewBase("pppoe-c04"),
 		logger:           logger.NewTest(),
 		eventBus:         bus,
 		ifMgr:            ifMgr,
 		cfgMgr:           &vc04Cfg{lo: vc04U16(g[0]), hi: vc04U16(g[1])},
+		accessResolver:   gate,
 		acName:           defaultACName,
 		cookieMgr:        cm,
 		sessions:         make(map[string]*SessionState),
@@ -300,14 +356,14 @@ func vc04Build(f []string) *vc04World {
 		nextSessionID:    1,
 	}
 	c.SetReadyState(component.StateReady)
-	w := &vc04World{c: c, bus: bus, secret: secret, uid: map[*SessionState]int{}, byName: map[string]*SessionState{}}
+	w := &vc04World{c: c, bus: bus, gate: gate, secret: secret, uid: map[*SessionState]int{}, byName: map[string]*SessionState{}}
 	if occ := strings.TrimPrefix(f[4], "occ="); occ != "-" {
 		for _, r := range strings.Split(occ, ",") {
 			ab := strings.Split(r, "-")
 			a, _ := strconv.Atoi(ab[0])
 			b, _ := strconv.Atoi(ab[1])
 			for i := a; i <= b; i++ {
-				w.restore(uint16(i), net.HardwareAddr{2, 0, 0, 0, byte(i >> 8), byte(i)}, 3000, 0, true)
+				w.restore(uint16(i), net.HardwareAddr{2, 0, 0, 0, byte(i >> 8), byte(i)}, 3000, 0, true, "")
 			}
 		}
 	}
@@ -318,9 +374,9 @@ func vc04Build(f []string) *vc04World {
 	return w
 }
 
-func (w *vc04World) restore(sid uint16, mac net.HardwareAddr, sv, cv uint16, bulk bool) int {
+func (w *vc04World) restore(sid uint16, mac net.HardwareAddr, sv, cv uint16, bulk bool, user string) int {
 	s := &SessionState{SessionID: fmt.Sprintf("r%d", len(w.uid)), PPPoESessionID: sid, MAC: mac, OuterVLAN: sv, InnerVLAN: cv,
-		SwIfIndex: 0, EncapIfIndex: 10, Attributes: map[string]string{}}
+		SwIfIndex: 0, EncapIfIndex: 10, Attributes: map[string]string{}, Username: user}
 	w.c.installInMemoryState(s)
 	return w.register(s, bulk)
 }
@@ -463,6 +519,16 @@ func (w *vc04World) op(tok string) string {
 			s.LastSeen = time.Time{}
 		}
 		proto, frame := vc04Frame(p[5])
+		if strings.HasPrefix(p[5], "name:") {
+			// CHAP Response carrying the peer name <hex>; the target is put into the Authenticate phase first
+			// (white-box: the LCP handshake itself is C05's subject)
+			if s := c.sidIndex[sid]; s != nil {
+				s.Phase = ppp.PhaseAuthenticate
+			}
+			name := vc04Hex(p[5][5:])
+			frame = append([]byte{2, 1, 0, byte(4 + 2 + len(name)), 1, 0xaa}, name...)
+			proto = 0xc223
+		}
 		pk := w.pkt(mac, sv, cv, layers.PPPoECodeSession, sid, nil)
 		pk.Protocol = models.ProtocolPPPoESession
 		pk.PPP = &layers.PPP{PPPType: layers.PPPType(proto)}
@@ -517,7 +583,52 @@ func (w *vc04World) op(tok string) string {
 		return "-"
 	case "X":
 		sid, mac, sv, cv := vc04U16(p[1]), vc04Hex(p[2]), vc04U16(p[3]), vc04U16(p[4])
-		return "restored:u" + strconv.Itoa(w.restore(sid, net.HardwareAddr(mac), sv, cv, false))
+		user := ""
+		if len(p) > 5 {
+			user = string(vc04Hex(p[5]))
+		}
+		return "restored:u" + strconv.Itoa(w.restore(sid, net.HardwareAddr(mac), sv, cv, false, user))
+	case "P":
+		// n PADRs (distinct MACs, valid cookies) forced to overlap between allocateSessionID and addToIndexes
+		n, _ := strconv.Atoi(p[1])
+		sv := vc04U16(p[2])
+		w.gate.mu.Lock()
+		w.gate.armed, w.gate.want, w.gate.inside, w.gate.release = true, n, 0, make(chan struct{})
+		w.gate.mu.Unlock()
+		var wg sync.WaitGroup
+		for i := 0; i < n; i++ {
+			mac := []byte{0x0a, 0, 0, 0, byte(i >> 8), byte(i)}
+			pl := vc04Tag(0x0104, vc04Forge(w.secret, mac, sv, 0, uint32(w.now)))
+			pk := w.pkt(mac, sv, 0, layers.PPPoECodePADR, 0, pl)
+			wg.Add(1)
+			go func() { defer wg.Done(); c.handlePADR(pk) }()
+		}
+		done := make(chan struct{})
+		go w.gate.supervise(done)
+		wg.Wait()
+		close(done)
+		w.gate.mu.Lock()
+		w.gate.armed = false
+		w.gate.mu.Unlock()
+		eg, _ := w.bus.take()
+		var sids []int
+		for _, e := range eg {
+			if e.code == byte(layers.PPPoECodePADS) {
+				sids = append(sids, int(e.sid))
+			}
+		}
+		sort.Ints(sids)
+		var sb []string
+		for i := 0; i < n; i++ {
+			mac := []byte{0x0a, 0, 0, 0, byte(i >> 8), byte(i)}
+			if s := c.sessions[w.key(mac, sv, 0)]; s != nil {
+				w.register(s, true)
+			}
+		}
+		for _, s := range sids {
+			sb = append(sb, strconv.Itoa(s))
+		}
+		return "ovl:" + strings.Join(sb, "+")
 	case "C":
 		n, _ := strconv.Atoi(p[1])
 		sv := vc04U16(p[2])
@@ -573,7 +684,14 @@ func (w *vc04World) dump() string {
 		if c.sessions[w.key(s.MAC, s.OuterVLAN, s.InnerVLAN)] == s {
 			b = 1
 		}
-		parts = append(parts, fmt.Sprintf("u%d:%d:%d%d", w.uid[s], s.PPPoESessionID, a, b))
+		d, e := 0, 0
+		if c.sessionIDIndex[s.SessionID] == s {
+			d = 1
+		}
+		if s.Username != "" && c.usernameIndex[s.Username] == s {
+			e = 1
+		}
+		parts = append(parts, fmt.Sprintf("u%d:%d:%d%d%d%d", w.uid[s], s.PPPoESessionID, a, b, d, e))
 	}
 	return strings.Join(parts, " ")
 }
